@@ -1,8 +1,8 @@
 (* C20/Run.v — S-expression front end, extracted to OCaml.
    (web F (gets (path hv) ...) (posts (path hv) ...) (behavs b ...) (events ev ...))
-        F  = (impl) | (flags arity1 skipcalls capture e400)
+        F  = (impl) | (flags arity1 skipcalls capture e400 fbkey fbklong fbother)
         hv = (fn arity (sym c ...)|(nosym) body) | (call arity) | (other)         path, sym, keys, values = (code points)
-        b  = (const (c ...)) | (count) | (get (c ...)) | (fail)                    body ids index this list
+        b  = (const (c ...)) | (count) | (get (c ...)) | (failo) | (failk) | (faill)                   body ids index this list
         ev = (req get|post path ((k v) ...)) | (def sym (fn arity body)) | (def sym (other))
      -> (ok (resps (status body) ...) (log (id ((k v) ...)) ...) (spec (id ((k v) ...)) ...))
    (ws jv ...)   a handler fails exactly on the string "boom"
@@ -41,22 +41,26 @@ Definition p_entry (x : sx) : option (str * hval) :=
 Definition p_table (x : sx) : option (list (str * hval)) :=
   match x with SL (SS _ :: l) => sx_list p_entry l | _ => None end.
 
-Inductive bdef := BDConst (s : str) | BDCount | BDGet (k : str) | BDFail.
+Inductive bdef := BDConst (s : str) | BDCount | BDGet (k : str) | BDFail (o : outcome).
 Definition p_bdef (x : sx) : option bdef :=
   match x with
-  | SL [SS t] => if is_tag "count" t then Some BDCount else if is_tag "fail" t then Some BDFail else None
+  | SL [SS t] => if is_tag "count" t then Some BDCount
+                 else if is_tag "failo" t then Some (BDFail OFailOther)
+                 else if is_tag "failk" t then Some (BDFail OFailKey)
+                 else if is_tag "faill" t then Some (BDFail OFailKlong) else None
   | SL [SS t; a] => if is_tag "const" t then option_map BDConst (p_str a)
                     else if is_tag "get" t then option_map BDGet (p_str a) else None
   | _ => None
   end.
 Fixpoint pget (k : str) (p : params) : option str :=
   match p with [] => None | (a, b) :: t => if str_eqb k a then Some b else pget k t end.
-Definition behav_of (bs : list bdef) (b : nat) (p : params) : option body :=
+Definition behav_of (bs : list bdef) (b : nat) (p : params) : outcome :=
   match nth_error bs b with
-  | Some (BDConst s) => Some (BText s)
-  | Some BDCount => Some (BNum (Z.of_nat (List.length p)))
-  | Some (BDGet k) => Some (match pget k p with Some v => BText v | None => BUndef end)
-  | _ => None
+  | Some (BDConst s) => OOk (BText s)
+  | Some BDCount => OOk (BNum (Z.of_nat (List.length p)))
+  | Some (BDGet k) => OOk (match pget k p with Some v => BText v | None => BUndef end)
+  | Some (BDFail o) => o
+  | None => OFailOther
   end.
 
 Definition p_kv (x : sx) : option (str * str) :=
@@ -80,7 +84,8 @@ Definition p_event (x : sx) : option event :=
 Definition p_rflags (x : sx) : option rflags :=
   match x with
   | SL [SS t] => if is_tag "impl" t then Some impl_rflags else None
-  | SL [SS t; SZ a; SZ b; SZ c; SZ d] => if is_tag "flags" t then Some (mkRF (zb a) (zb b) (zb c) (zb d)) else None
+  | SL [SS t; SZ a; SZ b; SZ c; SZ d; SZ e; SZ f; SZ g] =>
+      if is_tag "flags" t then Some (mkRF (zb a) (zb b) (zb c) (zb d) (zb e) (zb f) (zb g)) else None
   | _ => None
   end.
 
